@@ -163,8 +163,28 @@ class CleanOp(Op):
         return cases[:n]
 
 
+class ArgsOp(Op):
+    """survey.split_function_args (the argument splitter of indexed-repeat()) against Model/Args.v"""
+    name = "R.split_function_args"
+    imports = ["PX.Model.Args"]
+    fn = "fun s => join [1%N] (split_function_args s)"
+    in_ty = "list N"
+    n_quick, n_thorough = 500, 5000
+
+    def generate(self, rng, n):
+        from pyxform.survey import split_function_args
+        atoms = ["a", ",", "(", ")", " ", "${x}", "position(..)", "if(a, b, c)", "1", "((", "))", ")(", ",,", "f(g(h, i), j)", ", ", "${r}", "é", "'a,b'", "", "2"]
+        cases = []
+        for _ in range(n):
+            s = "".join(rng.choice(atoms) for _ in range(rng.randint(0, 8)))
+            parts = split_function_args(s)
+            cases.append({"coq": cstr(s), "expected": "\x01".join(parts), "desc": {"args": s}, "class": f"{min(len(parts), 5)} parts" + ("/parens" if "(" in s or ")" in s else ""),
+                          "nontrivial": len(parts) > 1 and "(" in s})
+        return cases
+
+
 def ops(tier):
-    return [VarReplOp(), CleanOp()]
+    return [VarReplOp(), CleanOp(), ArgsOp()]
 
 
 # ---- direct oracle: evaluate every substituted path on real convert() output -------------------------------
